@@ -521,6 +521,13 @@ def fixed_family():
     progs.append(([['assign', V('Y'), ['bin', '*', ['num', '0.5'], V('Y')]]],
                   [{'entry': 'solve_t', 'tpos': 0, 'opts': {'max_iter': 0, 'failures': f}} for f in ('raise', 'ignore')]
                   + [{'entry': 'solve', 'opts': {'max_iter': 0, 'failures': 'ignore'}}]))
+    # names that end in (or contain) other names of the same equation: K / dK, W / RW, X / X_1 / aX (textual rewriting
+    # of NAME[t+k] must not reach into a longer identifier)
+    runs = [{'entry': 'evaluate', 'tpos': 0}, {'entry': 'solve', 'opts': {'max_iter': 5, 'failures': 'ignore'}}]
+    progs.append(([['assign', V('K'), ['bin', '+', V('K', -1), V('dK')]]], runs))
+    progs.append(([['assign', V('W'), ['bin', '*', V('RW'), V('P')]], ['assign', V('P'), ['bin', '+', V('P', -1), V('dP', -1)]]], runs))
+    progs.append(([['assign', V('dK'), ['bin', '-', V('K'), ['bin', '*', V('d', None, 'p'), V('K', -1)]]]], runs))
+    progs.append(([['assign', V('X'), ['bin', '+', ['bin', '+', V('aX'), V('X_1', 1)], V('X', -1)]]], runs))
     return progs
 
 
